@@ -259,7 +259,7 @@ def renderTlsCase (j : Json) : Except String Json := do
   let sfiles := (getArr j "sfiles").toList.map fun x => x.getStr?.toOption.getD ""
   let t := NGF.RenderTlsTie.tie http ms s secrets sfiles
   pure (Json.mkObj [("inFragment", t.inFragment), ("why", t.why), ("namesSafe", t.namesSafe), ("portsOK", t.portsOK),
-    ("noDupSsl", t.noDupSsl), ("equal", t.equal), ("diff", t.diff), ("matchesEqual", t.matchesEqual), ("matchesDiff", t.matchesDiff),
+    ("noDupSsl", t.noDupSsl), ("httpsFrag", t.httpsFrag), ("equal", t.equal), ("diff", t.diff), ("matchesEqual", t.matchesEqual), ("matchesDiff", t.matchesDiff),
     ("dirs", t.dirs), ("sslServers", t.sslServers), ("sslDefaults", t.sslDefaults), ("certRefs", t.certRefs),
     ("certMissing", Json.arr (t.certMissing.map Json.str).toArray), ("certModelOK", t.certModelOK), ("forgetOK", t.forgetOK),
     ("wfModel", issuesJ t.wfModel), ("wfReal", issuesJ t.wfReal)])
